@@ -403,13 +403,20 @@ func runAcyc1(m *Model, r *RuleResult) {
 					if !ok || call.Call.StaticCallee() == nil || !inModule(call.Call.StaticCallee()) || len(call.Call.Args) == 0 {
 						continue
 					}
-					// argument: element of the scanned list at the loop index
-					u, ok := call.Call.Args[0].(*ssa.UnOp)
-					if !ok || u.Op != token.MUL {
-						continue
+					// an argument (the receiver of a state-holding method aside): element of the scanned list at the loop index
+					var u *ssa.UnOp
+					for _, a := range call.Call.Args {
+						cand, ok := a.(*ssa.UnOp)
+						if !ok || cand.Op != token.MUL {
+							continue
+						}
+						ia, ok := cand.X.(*ssa.IndexAddr)
+						if !ok || !(ia.X == scanned || sameSSAExpr(ia.X, scanned, 0)) {
+							continue
+						}
+						u = cand
 					}
-					ia, ok := u.X.(*ssa.IndexAddr)
-					if !ok || ia.X != scanned {
+					if u == nil {
 						continue
 					}
 					_ = idx
@@ -541,7 +548,7 @@ func init() {
 		ID: "DISP-1",
 		Doc: "the algorithm that runs is the one the option names: in every Process method of the five phase packages, which dispatch target is called - a function of the package taking the graph that is called under a comparison of the receiver with an algorithm constant - depends on nothing but such comparisons; " +
 			"any other condition on the way to a target must be an early-exit guard (its other branch reaches no target). A size-gated fallback (`if len(g.Nodes) > 512 { greedy } else { depth-first }`) silently replaces the documented algorithm and its guarantees",
-		Floor: 10,
+		Floor: 8,
 		Ctl:   []string{"internal__phase1__disp1.go.txt"},
 		Run:   runDisp1,
 	})
@@ -604,9 +611,19 @@ func runDisp1(m *Model, r *RuleResult) {
 				return
 			}
 			deps := transitiveControlDeps(in.Block())
+			// inside one case of the dispatch: dominated by the "equal" successor of an algorithm test (code after the
+			// switch, common to all cases, is not)
 			under := false
 			for _, d := range deps {
-				if isAlgTest(d.If.Cond) {
+				if !isAlgTest(d.If.Cond) {
+					continue
+				}
+				bo := d.If.Cond.(*ssa.BinOp)
+				eq := d.If.Block().Succs[0]
+				if bo.Op == token.NEQ {
+					eq = d.If.Block().Succs[1]
+				}
+				if eq == in.Block() || eq.Dominates(in.Block()) {
 					under = true
 				}
 			}
